@@ -107,6 +107,29 @@ def sample_onepass(hists, cap, rnd):
     return picked[:cap]
 
 
+def sample_failuse(hists, cap, rnd):
+    """fail-then-use histories: first those in which a command on a handle fails (predicted err) and a later command uses the same handle"""
+    def good(h):
+        v = [x.split("|") for x in h]
+        for i, (verb, arg, tgt, exp) in enumerate(v):
+            if tgt.startswith("h") and exp == "err" and any(t == tgt and e in ("ok", "any") for _, _, t, e in v[i + 1:]):
+                return True
+        return False
+    a = [h for h in hists if good(h)]
+    b = [h for h in hists if not good(h)]
+    rnd.shuffle(a)
+    rnd.shuffle(b)
+    # every failing shape at least once
+    seen, first = set(), []
+    for h in a:
+        k = frozenset((x.split("|")[0], x.split("|")[1]) for x in h if x.endswith("|err"))
+        if not k <= seen:
+            seen |= k
+            first.append(h)
+    rest = [h for h in a if h not in first]
+    return (first + rest[:cap * 3 // 4] + b)[:cap]
+
+
 def sample_histories(hists, cap, rnd):
     """all histories that address a live handle, then histories starting with a successful open, then the rest"""
     def score(h):
@@ -171,7 +194,7 @@ def driver_args(ctx, binp, adlt, scn, trace, nrand):
     quick = ctx.quick()
     return [binp, "--adlt", adlt, "--work", ctx.work, "--scenarios", scn, "--random", str(nrand), "--seed", str(ctx.seed),
             "--out", trace, "--conns", "12", "--long-max", "120" if quick else "200", "--big", "6000" if quick else "40000",
-            "--huge", "560000", "--huge-wait-ms", "5000", "--random-numeric", "10" if quick else "150"]      # > 512 Ki messages: more than the server's bounded channels hold
+            "--huge", "560000", "--huge-wait-ms", "5000", "--random-numeric", "10" if quick else "150"] + ([] if quick else ["--all-sizes"])      # > 512 Ki messages: more than the server's bounded channels hold
 
 
 def check(ctx):
@@ -187,7 +210,8 @@ def check(ctx):
     # (b) scenario emission
     hists = []
     plan = [("Remote_emit_quick.cfg", 900), ("Remote_emit_multi.cfg", 200), ("Remote_emit_onepass.cfg", 200),
-            ("Remote_emit_numeric.cfg", 400), ("Remote_emit_plugin.cfg", 150)] if quick else [("Remote_emit_numeric4.cfg", 3000),
+            ("Remote_emit_numeric.cfg", 400), ("Remote_emit_plugin.cfg", 150), ("Remote_emit_failuse.cfg", 200)] if quick else [("Remote_emit_numeric4.cfg", 3000),
+        ("Remote_emit_failuse.cfg", 3000),
         ("Remote_emit_plugin.cfg", 3000),
         ("Remote_emit_full2.cfg", 8000), ("Remote_emit_quick.cfg", 6000), ("Remote_emit_core4.cfg", 6000), ("Remote_emit_multi.cfg", 3000),
         ("Remote_emit_onepass.cfg", 3000)]
@@ -196,7 +220,9 @@ def check(ctx):
         res = c.tlc_must_pass(ctx, "emit-" + cfg.split("_emit_")[1].split(".")[0], "Remote.tla", cfg, timeout=3000)
         hs = letters(res)
         emitted += len(hs)
-        if "numeric" in cfg or "plugin" in cfg:
+        if "failuse" in cfg:
+            hists += sample_failuse(hs, cap, rnd)
+        elif "numeric" in cfg or "plugin" in cfg:
             rnd.shuffle(hs)
             hists += hs[:cap]
         else:
